@@ -42,11 +42,13 @@ fn rule_r1(rng: &mut Rng, identity: bool) -> String {
     ("X", r#"{"substring": {"source": "$Y", "startChar": 1}}"#.to_string()),
     ("Y", r#"{"replace": {"source": "$Z", "replace": "A", "by": "b"}}"#.to_string()),
     ("Z", r#"{"convert": {"source": "$A", "toCase": "upperCase"}}"#.to_string()),
-    ("W", r#"{"rewrite": {"source": "$B", "rewriters": ["rw1", "rw2"], "joinBy": "+"}}"#.to_string()),
+    ("W", r#"{"rewrite": {"source": "$B", "rewriters": ["rw3", "rw1", "rw2"], "joinBy": "+"}}"#.to_string()),
   ], rng);
   let rews = p(vec![
     ("rw1", r#"{"id": "rw1", "rule": {"pattern": "x"}, "fix": "X1"}"#.to_string()),
     ("rw2", r#"{"id": "rw2", "rule": {"kind": "number"}, "fix": "N"}"#.to_string()),
+    // a rewriter that applies another rewriter: the reference points forward or backward in the list, as the order falls
+    ("rw3", r#"{"id": "rw3", "rule": {"pattern": "[$$$E]"}, "transform": {"R": {"rewrite": {"source": "$$$E", "rewriters": ["rw2", "rw1"]}}}, "fix": "<$R>"}"#.to_string()),
   ], rng);
   let top = p(vec![
     ("id", "\"r1\"".to_string()),
